@@ -51,6 +51,7 @@ LIT_CORPUS = [
 DOC_CORPUS = [
     "single line doc", "two lines\n    second line", "ends with a quote\"",
     "has \\ backslash and \"\"\" triple", "non-ascii: \u00e9\u00e8 \u2603", "trailing space ",
+    "ends with three quotes\"\"\"", "\"\"\"\"", "backslash at end\\",
 ]
 
 
@@ -93,6 +94,10 @@ class World:
 
     def close(self):
         self.rec.stop()
+        if getattr(self, "_c04_home", None):
+            import shutil
+            shutil.rmtree(self._c04_home, ignore_errors=True)
+            self._c04_home = None
         mx.set_recalc(False)
         mx.use_formula_error(True)
         if self.maxdepth:
@@ -284,13 +289,18 @@ class World:
         import shutil
         import tempfile
         import zipfile
+        # every save of one history goes to the SAME location (removed by close()):
+        # a later save meets what an earlier one left there, with or without backups
+        keep = getattr(self, "_c04_home", None)
+        if keep is None:
+            keep = self._c04_home = tempfile.mkdtemp(prefix="mxv_c04home_")
         tmp = tempfile.mkdtemp(prefix="mxv_c04_")
         extra = {}
         try:
             before_path = self.m.path
-            dpath, zpath = os.path.join(tmp, "m"), os.path.join(tmp, "m.zip")
-            self.m.write(dpath)
-            self.m.zip(zpath)
+            dpath, zpath = os.path.join(keep, "m"), os.path.join(keep, "m.zip")
+            self.m.write(dpath, backup=bool(op.get("backup", True)))
+            self.m.zip(zpath, backup=bool(op.get("backup", True)))
             files_dir = sorted(
                 os.path.relpath(os.path.join(d, f), dpath).replace(os.sep, "/")
                 for d, _, fs in os.walk(dpath) for f in fs)
